@@ -19,6 +19,7 @@ type stepOut struct {
 	NaN   bool     `json:"nan,omitempty"`
 	Panic string   `json:"panic,omitempty"`
 	Rej   bool     `json:"rej,omitempty"`
+	Ret   string   `json:"ret,omitempty"`
 	Vars  []string `json:"vars"`
 }
 
@@ -31,7 +32,7 @@ func run(p sm.Program) (out []stepOut, err string) {
 	m := sm.NewMachine(p.Init)
 	for _, s := range p.Steps {
 		o := m.Do(s)
-		so := stepOut{NaN: o.NaN, Rej: o.Rejects}
+		so := stepOut{NaN: o.NaN, Rej: o.Rejects, Ret: o.Ret}
 		if o.Panic != nil {
 			so.Panic = fmt.Sprintf("%T", o.Panic)
 		}
